@@ -363,6 +363,67 @@ def dummy_table(ctx, prog):
            '%d alphabet sizes' % n if not bad else str(bad[:4]), evals=n)
 
 
+def block_header(ctx, prog):
+    """transmit(): the first 96 bits of every block, tabulated: 48-bit magic, inverted block CRC, randomisation bit
+    0, primary index"""
+    from parsefsm import bswap32
+    import random
+    f = prog.func('encode', 'transmit')
+    lp = cfg.loops(f)
+    rnd = random.Random(7)
+    bad = []
+    unknown = []
+    n = 0
+    cases = [(0, 0), (0xFFFFFFFF, 0xFFFFFF)] + [(1 << k, 0) for k in range(32)] + [(0, 1 << k) for k in range(24)] + \
+        [(rnd.getrandbits(32), rnd.getrandbits(24)) for _ in range(16)]
+    for crc, idx in cases:
+        n += 1
+
+        def oracle(key, ins, crc=crc, idx=idx):
+            root, path = key
+            if path and path[-1] == 'block_crc':
+                return crc
+            if path and path[-1] == 'bwt_idx':
+                return idx
+            if path and path[-1] == 'nmtf':
+                return 100
+            if path and path[-1] in ('out_expect_len', 'max_block_size'):
+                return 1000
+            if root == ('param', 's') and 'SA' in path:
+                return 5        # mtfv[nmtf-1]: the EOB symbol number (alphabet size - 1)
+            raise Unknown('load of %r' % (key,))
+        fr = Frag(prog, f, regs={'buf': Ptr(('out',), (0,), 4)}, oracle=oracle, intrinsics={'htonl': bswap32, 'ntohl': bswap32})
+        try:
+            fr.run(f.entry.name, stop=lambda ins, fr_: ins.block.name in lp)
+        except Unknown as e:
+            unknown.append(str(e))
+            continue
+        words = [fr.mem.get((('out',), (k,))) for k in range(3)]
+        if any(w is None for w in words):
+            bad.append('fewer than three words written before the character map')
+            continue
+        bits = 0
+        for w in words:
+            bits = (bits << 32) | bswap32(w)
+        magic = bits >> 48
+        gotcrc = (bits >> 16) & 0xFFFFFFFF
+        rand = (bits >> 15) & 1
+        idx15 = bits & 0x7FFF
+        if magic != 0x314159265359:
+            bad.append('block magic %#x' % magic)
+        if gotcrc != (crc ^ 0xFFFFFFFF):
+            bad.append('stored CRC %#x for accumulated %#x' % (gotcrc, crc))
+        if rand != 0:
+            bad.append('randomisation bit set')
+        if idx15 != idx >> 9:
+            bad.append('primary index bits %#x for index %#x' % (idx15, idx))
+    if unknown:
+        broken('C02 block header fragment of transmit() could not be tabulated: %s' % unknown[:2])
+    ctx.ob('C02.block_header', 'every block starts with 0x314159265359, the inverted accumulated CRC (all 32 bits), '
+           'randomisation bit 0 and the primary index', f.loc(), not bad, '; '.join(sorted(set(bad))[:3]) or
+           '%d (crc, index) cases incl. every single bit' % n, evals=n)
+
+
 def witnesses(ctx, prog):
     r = witness.check(ctx, 'encode', [
         ('at most 18002 selectors fit selector[]', 'sizeof(((struct encoder_state *)0)->u.s.selector) == 18002'),
@@ -388,6 +449,7 @@ def run(ctx):
     c03.chunking(ctx, prog, A)
     collect_rules(ctx, prog)
     dummy_table(ctx, prog)
+    block_header(ctx, prog)
     witnesses(ctx, prog)
     c15.table_rule(ctx, prog, pfx='C02')
     c03.writer_order(ctx, prog, A)
